@@ -139,12 +139,12 @@ CLAIMED = {
          "expansion, the character map built from it: the compiled subtable decodes to the same map sorted by code with glyph 0 meaning "
          "not mapped; the run-length grouping loses nothing for ANY pair list), and of the component records of composite glyphs (argument "
          "widths, the three transform forms, the flag word: decode after encode is the identity), and of kern format 0 (both headers, sorted "
-         "records, signed values), and of cmap format 6 (code range filled with glyph 0 and dropped again on reading), for all metric/offset/point lists, character maps, components and kerning pair sets. Tied to "
-         "the table classes by byte-exact correspondence incl. malformed data for the decoders. The remaining codecs (cmap 0/2/4/14, simple glyphs with every flag/"
+         "records, signed values), and of cmap format 6 (code range filled with glyph 0 and dropped again on reading), and of cmap format 4 (splitRange and the run splitting: the segments tile the mapped codes whatever the split heuristics decide; delta and glyph-index-array segments; decompile after compile is the identity on every mapping with 16-bit glyph IDs), for all metric/offset/point lists, character maps, components and kerning pair sets. Tied to "
+         "the table classes by byte-exact correspondence incl. malformed data for the decoders. The remaining codecs (cmap 0/2/14, simple glyphs with every flag/"
          "repeat pattern and both coordinate compilers, components, whole glyf/loca tables around the 0x20000 limit with every padding, gvar "
          "tuple variations with 1..300 explicit points, name, kern) are implementation round-trip sweeps on generated contents (testing). "
          "F7 (empty cmap 12/13) repaired by a fix: commit.",
-         "Rocq proof of hmtx/loca/glyf-points/components/cmap6-12-13/kern0 codec round trips + byte-exact correspondence + generated-content round-trip sweeps"),
+         "Rocq proof of hmtx/loca/glyf-points/components/cmap4-6-12-13/kern0 codec round trips + byte-exact correspondence + generated-content round-trip sweeps"),
  "C03": ("Theorems over the Gallina transcription of the TTX text layer: escape / escapeattr followed by a specification-level XML "
          "un-escaper return every string of legal XML characters (attribute values up to exactly the TAB/LF->space normalisation the property "
          "allows), by induction over the string; hexStr/deHexStr round-trip every byte string. The transcriptions AND the specification-level "
